@@ -276,6 +276,40 @@ func (e *Exec) querySweep(r *Replica, m *Model, height int64, full bool, atH int
 				return
 			}
 			e.Stats.Inc("q.writers")
+			// single-writer view: every listed writer is found with its stored fields, a non-writer is not found
+			for w, wm := range ts.Writers {
+				q := n.Query(qWriter, &aoltypes.QueryWriterRequest{OwnerAddress: oa, TopicName: name, WriterAddress: sdk.AccAddress([]byte(w)).String()}, height)
+				if e.qpanic(q, "Writer") {
+					return
+				}
+				var wr aoltypes.QueryWriterResponse
+				if !q.OK() || wr.Unmarshal(q.Value) != nil || wr.Writer == nil || wr.Writer.Moniker != wm.Moniker || wr.Writer.Description != wm.Desc || wr.Writer.NanoTimestamp != wm.Ts {
+					e.viol("C02", "writer.single_view", name, "replica %d height %d: Writer(%s,%s,%x) does not return the listed writer (%s)", r.ID, atH, oa, name, w, q.Brief())
+					return
+				}
+				break // one per topic and sweep is enough
+			}
+			for _, a := range e.Env.Accs {
+				if _, listed := ts.Writers[string(a.Addr)]; listed {
+					continue
+				}
+				q := n.Query(qWriter, &aoltypes.QueryWriterRequest{OwnerAddress: oa, TopicName: name, WriterAddress: a.Addr.String()}, height)
+				if e.qpanic(q, "Writer") {
+					return
+				}
+				if q.OK() {
+					prop := "C02"
+					if e.Prop == "C15" && e.touchedByFailed["topic:"+oa+"/"+name] {
+						prop = "C15"
+					}
+					e.viol(prop, "writer.phantom", "topic:"+oa+"/"+name, "replica %d height %d: Writer(%s,%s,%s) is returned although that address is not in the topic's writer list", r.ID, atH, oa, name, a.Addr)
+					return
+				}
+				e.Stats.Inc("q.writer_absent")
+				if rng.Chance(0.6) {
+					break
+				}
+			}
 			// a record just past the end does not exist
 			q = n.Query(qRecord, &aoltypes.QueryRecordRequest{OwnerAddress: oa, TopicName: name, Offset: uint64(len(ts.Records))}, height)
 			if e.qpanic(q, "Record") {
